@@ -18,16 +18,16 @@ def gen_module(c):
 
 
 def cfg_text(c):
-    return ("SPECIFICATION Spec\nCONSTANTS\n  Family = \"%s\"\n  Alphabet <- GAlphabet\n  MaxLv = %d\n  Arities <- GArities\n  MaxPU = %d\n"
+    return ("SPECIFICATION Spec\nCONSTANTS\n  Family = \"%s\"\n  Alphabet <- GAlphabet\n  MaxLv = %d\n  MinLv = %d\n  Arities <- GArities\n  MaxPU = %d\n"
             "  MaxGroups = %d\n  MaxAtt = %d\n  Style = %d\n  Deep = %d\n  Variants <- GVariants\n  IdxKinds <- GIdxKinds\n  Perturbs <- GPerturbs\n"
             "  PermLv = %d\n  NStripes = %d\n  Stripe = %d\nINVARIANTS DescInv BuildInv ExportInv Emit\nCHECK_DEADLOCK FALSE\n"
-            % (c["family"], c["maxlv"], c["maxpu"], c["maxgroups"], c["maxatt"], c["style"], c["deep"], c["permlv"], c["nstripes"], c["stripe"]))
+            % (c["family"], c["maxlv"], c["minlv"], c["maxpu"], c["maxgroups"], c["maxatt"], c["style"], c["deep"], c["permlv"], c["nstripes"], c["stripe"]))
 
 
-def job(tag, family="typed", alphabet=FULL_ALPHABET, maxlv=2, arities=(1, 2), maxpu=8, maxgroups=1, maxatt=2, style=1, deep=0,
+def job(tag, family="typed", alphabet=FULL_ALPHABET, maxlv=2, minlv=0, arities=(1, 2), maxpu=8, maxgroups=1, maxatt=2, style=1, deep=0,
         variants=(0, 3), idx=("none", "list", "types", "loops"), perturbs=("none", "cpu", "node"), permlv=0, nstripes=1, stripe=0,
         simulate=None, depth=None, workers=4, timeout=1500):
-    return dict(tag=tag, family=family, alphabet=list(alphabet), maxlv=maxlv, arities=list(arities), maxpu=maxpu, maxgroups=maxgroups,
+    return dict(tag=tag, family=family, alphabet=list(alphabet), maxlv=maxlv, minlv=minlv, arities=list(arities), maxpu=maxpu, maxgroups=maxgroups,
                 maxatt=maxatt, style=style, deep=deep, variants=list(variants), idx=list(idx), perturbs=list(perturbs), permlv=permlv,
                 nstripes=nstripes, stripe=stripe, simulate=simulate, depth=depth, workers=workers, timeout=timeout)
 
@@ -61,7 +61,7 @@ def model_behaviours(item, k):
     d, text, pert = item["d"], item["text"], item["pert"]
     deep = item.get("deep", 0) > 0
     dj = json.dumps(d, separators=(",", ":"))
-    head = ["reset", "d " + dj, "set " + hexs(text.encode("latin1"))]
+    head = ["reset", "d " + dj, "set x" + hexs(text.encode("latin1"))]
     allset = set(range(16)) if deep else {(k * 5 + j * 3) % 16 for j in range(4)}
     maxsizes = 48 if deep else 0
 
@@ -210,44 +210,60 @@ def hostile_strings(rng, n, model_texts):
     return out[:max(n, 0)] if n else out
 
 
+def max_number(s):
+    m = 0
+    for x in re.finditer(rb"0[xX][0-9a-fA-F]+|[0-9]+", s):
+        t = x.group(0)
+        m = max(m, int(t, 16) if t[:2].lower() == b"0x" else int(t))
+    return m
+
+
 def hostile_behaviour(s):
-    lines = ["reset", "set " + hexs(s)]
+    lines = ["reset", "set x" + hexs(s)]
     prod = arity_product(s)
+    if max_number(s) > 1000000:
+        prod = 1 << 40       # an os_index of 4e9 makes every cpuset a 512 MB bitmap: parse only
     if prod <= 64 and len(s) < 3000:
-        lines += ["load 1", "export 40 1 0:1 3:0 4:1 6:0 8:0 9:0 15:1 16:0"]
-    elif prod <= 512:
+        lines += ["load 1", "export 40 1 0:1 2:0 4:1 6:0 8:0 10:0 12:0 14:1 16:0"]
+    elif prod <= 128:
         lines += ["load 1"]
     elif prod <= 4096:
-        lines += ["load 0"]
+        lines += ["load 0"]          # looked at for crashes only: WellFormed on thousands of objects is too slow for TLC
     lines.append("end")
     return "\n".join(lines) + "\n"
 
 
 # ---------------------------------------------------------------- jobs
 def jobs_for(tier, seed):
+    """TLC jobs of a tier.  BFS jobs enumerate the whole bounded grammar (every state is checked against the model
+    invariants) and emit the stripe selected by the seed; simulation jobs sample a larger grammar."""
     style = seed % 3 + 1
     J = []
+    deep_kw = dict(arities=(1, 2), maxpu=4, maxatt=1, perturbs=("none",))
     if tier == "quick":
-        ns = 6
-        J.append(job("typed2", maxlv=2, arities=(1, 2, 3), maxpu=9, maxatt=2, style=style, permlv=1, nstripes=ns, stripe=seed % ns, workers=6))
-        J.append(job("typed3", maxlv=3, arities=(1, 2), maxpu=8, maxatt=2, style=style % 3 + 1, variants=(0, 3), idx=("none", "types", "loops"),
-                     perturbs=("none",), alphabet=[13, 1, 6, 3, 14], nstripes=16, stripe=seed % 16, workers=6))
-        J.append(job("untyped", family="untyped", maxlv=4, arities=(1, 2), maxpu=16, maxatt=1, variants=(0,), idx=("none", "list", "loops"), perturbs=("none",),
-                     nstripes=4, stripe=seed % 4, workers=2))
-        for k in (119, 123, 124, 125, 126, 127):
-            J.append(job("deep%d" % k, maxlv=1, arities=(1, 2), maxpu=4, maxatt=1, style=style, deep=k, variants=(0,), idx=("none", "list"), perturbs=("none",),
-                         alphabet=[1, 14], workers=1))
-        J.append(job("deepu", family="untyped", maxlv=1, arities=(2,), maxpu=4, maxatt=1, deep=124, variants=(0,), idx=("none",), perturbs=("none",), workers=1))
-    else:
-        for st in (1, 2, 3):
-            J.append(job("typed2s%d" % st, maxlv=2, arities=(1, 2, 3), maxpu=12, maxatt=3, style=st, variants=(0, 1, 2, 3), permlv=2, workers=4))
-        J.append(job("typed3", maxlv=3, arities=(1, 2, 3), maxpu=12, maxatt=2, style=style, variants=(0, 3), permlv=0, nstripes=4, stripe=seed % 4, workers=6, timeout=3000))
-        J.append(job("untyped", family="untyped", maxlv=4, arities=(1, 2, 3), maxpu=24, maxatt=2, variants=(0,), idx=("none", "list", "loops"), perturbs=("none", "cpu"), workers=4))
-        for k in range(118, 130):
-            J.append(job("deep%d" % k, maxlv=2, arities=(1, 2), maxpu=4, maxatt=1, style=(k % 3) + 1, deep=k, variants=(0, 3), idx=("none", "list", "loops"), perturbs=("none",),
-                         alphabet=[13, 1, 14], workers=2))
+        J.append(job("core1", maxlv=1, arities=(1, 2, 3), maxpu=9, maxatt=2, style=style, permlv=1, nstripes=8, stripe=seed % 8, workers=4))
+        J.append(job("sim2", maxlv=2, minlv=1, arities=(1, 2, 3), maxpu=12, maxatt=3, style=style % 3 + 1, variants=(0, 1, 2, 3), workers=2, simulate="num=350", depth=12))
+        J.append(job("sim3", maxlv=3, minlv=2, arities=(1, 2, 3), maxpu=12, maxatt=3, style=(style + 1) % 3 + 1, variants=(0, 1, 2, 3), workers=2, simulate="num=400", depth=12))
+        J.append(job("simu", family="untyped", maxlv=4, minlv=1, arities=(1, 2, 3), maxpu=24, maxatt=2, variants=(0,), idx=("none", "list", "loops"),
+                     perturbs=("none", "cpu"), workers=1, simulate="num=200", depth=12))
         for k in (123, 124, 125, 126):
-            J.append(job("deepu%d" % k, family="untyped", maxlv=2, arities=(1, 2), maxpu=4, maxatt=1, deep=k, variants=(0,), idx=("none",), perturbs=("none",), workers=1))
+            J.append(job("deep%d" % k, maxlv=1, style=style, deep=k, variants=(0,), idx=("none", "list"), alphabet=[1, 14], workers=1, **deep_kw))
+        J.append(job("deepu", family="untyped", maxlv=1, deep=124, variants=(0,), idx=("none",), workers=1, **deep_kw))
+    else:
+        J.append(job("core1", maxlv=1, arities=(1, 2, 3), maxpu=9, maxatt=2, style=style, permlv=1, workers=4))
+        J.append(job("typed2", maxlv=2, arities=(1, 2, 3), maxpu=9, maxatt=2, style=style % 3 + 1, permlv=0, nstripes=6, stripe=seed % 6, workers=6, timeout=3000))
+        J.append(job("typed3", maxlv=3, arities=(1, 2), maxpu=8, maxatt=2, style=(style + 1) % 3 + 1, idx=("none", "types", "loops"), perturbs=("none",),
+                     alphabet=[13, 1, 6, 3, 14], nstripes=8, stripe=seed % 8, workers=6, timeout=3000))
+        J.append(job("untyped", family="untyped", maxlv=4, arities=(1, 2), maxpu=16, maxatt=1, variants=(0,), idx=("none", "list", "loops"), perturbs=("none",), workers=2))
+        J.append(job("sim3", maxlv=3, minlv=2, arities=(1, 2, 3), maxpu=18, maxatt=3, style=style, variants=(0, 1, 2, 3), workers=4, simulate="num=1000", depth=12))
+        J.append(job("sim4", maxlv=4, minlv=3, arities=(1, 2, 3), maxpu=24, maxatt=3, maxgroups=2, style=style % 3 + 1, variants=(0, 1, 2, 3), workers=4, simulate="num=500", depth=12))
+        J.append(job("simu", family="untyped", maxlv=4, minlv=1, arities=(1, 2, 3), maxpu=24, maxatt=2, variants=(0,), idx=("none", "list", "loops"),
+                     perturbs=("none", "cpu"), workers=2, simulate="num=500", depth=12))
+        for k in range(120, 130):
+            J.append(job("deep%d" % k, maxlv=1, style=(k % 3) + 1, deep=k, variants=(0, 3), idx=("none", "list", "loops"), alphabet=[13, 1, 14], workers=1, **deep_kw))
+        for k in (124, 125, 126):
+            J.append(job("deepb%d" % k, maxlv=2, style=(k % 3) + 1, deep=k, variants=(0,), idx=("none", "types"), alphabet=[1, 14], workers=2, **deep_kw))
+            J.append(job("deepu%d" % k, family="untyped", maxlv=2, deep=k, variants=(0,), idx=("none",), workers=1, **deep_kw))
     return J
 
 
@@ -276,7 +292,7 @@ def run(ctx, replay=None):
     rng = random.Random(ctx.seed)
     J = jobs_for(ctx.tier, ctx.seed)
     items = []
-    with cf.ThreadPoolExecutor(max_workers=3) as ex:
+    with cf.ThreadPoolExecutor(max_workers=4) as ex:
         for res in ex.map(lambda c: run_job(ctx, c), J):
             items += res
     if not items:
